@@ -163,7 +163,7 @@ def c15(prop, tier, verdict):
         return 'hist:%s' % what
     cov, _ = eng_generic.run(prop, tier, verdict, 'History', 'hist', 'PHistory', cl, consts={'MaxLen': '3' if tier == 'thorough' else '2'}, min_count=150,
                              nontrivial=lambda s: len(s.get('ops', [])) > 1)
-    return 'model_checking', cov, ['alphabet of 13 whole-process operations (direct and proxied calls and pushes, backend down / cut, closed sessions, unknown route, undecodable body, handler panic, auth reject, overload reject, secure key mismatch); every history of length <= 2 (quick) / 3 (thorough) in ONE process, so a mutated shared status is seen by everything after it',
+    return 'model_checking', cov, ['alphabet of 15 whole-process operations (direct and proxied calls and pushes, backend down / cut, closed sessions, unknown route, undecodable body, handler panic, auth reject, overload reject, secure key mismatch, PreReceive on a PreSession kept beyond the preparing phase with the message recycled, an accept hook that sends and returns a status object of its own); every history of length <= 2 (quick) / 3 (thorough) in ONE process, so a mutated shared status is seen by everything after it',
                                    'after every operation the verif accessor snapshots every package-level status; before and after every history four failing probes are repeated and their (code, msg, cause) compared']
 
 def c20(prop, tier, verdict):
